@@ -3,6 +3,8 @@ package main
 import (
 	"bytes"
 	"context"
+	"fmt"
+	"os"
 	"strconv"
 	"strings"
 	"time"
@@ -240,6 +242,7 @@ func genC03Parsers(tier string, rng *Rng) {
 	genNfH2C(tier, rng)
 	genChunkSum(tier, rng)
 	genHugeLen(tier, rng)
+	defer genFatalLen(tier, rng) // last: a regression of 6e06925 kills the process here
 	for _, p := range nfParsers {
 		pres, posts := p.pre, p.post
 		if len(pres) == 0 {
@@ -493,9 +496,8 @@ func genChunkSum(tier string, rng *Rng) {
 	}
 }
 
-// genHugeLen: the client reader against peer-declared sizes that cannot be allocated (known finding C03-huge-chunk-alloc,
-// both routes).  Only sizes the Go allocator REFUSES (panic, recoverable) are used: between about 2^38 and 2^47 the
-// process dies with "fatal error: out of memory" instead, which no harness can survive.
+// genHugeLen: the client reader against peer-declared sizes that cannot be allocated (both routes of the former finding
+// C03-huge-chunk-alloc, repaired in 6e06925: every such response must end in the model's verdict, unexpected EOF / need more).
 func genHugeLen(tier string, rng *Rng) {
 	for _, n := range []string{"4611686018427387904", "9223372036854775807", "1125899906842624", "562949953421312"} {
 		for _, body := range []string{"", "ab"} {
@@ -509,5 +511,34 @@ func genHugeLen(tier string, rng *Rng) {
 		s := "HTTP/1.1 200 OK\r\nTransfer-Encoding: chunked\r\n\r\n" + n + "\r\nab\r\n"
 		runOp([]string{"respread", "-", "0", "eof", hx([]byte(s)), "-"})
 		runOp([]string{"respread", "-", "100", "eof", hx([]byte(s)), "-"})
+	}
+}
+
+// genFatalLen: declared sizes between 2^38 and 2^47.  Before 6e06925 these did not panic: the Go runtime accepted the
+// allocation request and the process died with "fatal error: runtime: out of memory", which recover() cannot catch.  A
+// regression therefore shows as a CRASH OF THIS HARNESS (non-zero exit = `harness:exit-2` = VIOLATION in bin/check).  Called
+// last; the output is flushed and the case is announced on stderr before each call, so that everything generated before is
+// checked and the crashing input is named in the report.
+func genFatalLen(tier string, rng *Rng) {
+	risky := func(args []string) {
+		out.Flush()
+		fmt.Fprintln(os.Stderr, "RISKY-CASE "+strings.Join(args, " "))
+		runOp(args)
+		out.Flush()
+	}
+	for _, n := range []string{"1099511627776", "17592186044416", "274877906945"} { // 2^40, 2^44, 2^38+1
+		for _, body := range []string{"", "ab"} {
+			s := "HTTP/1.1 200 OK\r\nContent-Length: " + n + "\r\n\r\n" + body
+			risky([]string{"respread", "-", "0", pick(rng, []string{"eof", "stall"}), hx([]byte(s)), "-"})
+		}
+	}
+	for _, n := range []string{"10000000000", "100000000000", "4000000001"} { // 2^40, 2^44, 2^38+1
+		s := "HTTP/1.1 200 OK\r\nTransfer-Encoding: chunked\r\n\r\n" + n + "\r\nab\r\n"
+		risky([]string{"respread", "-", "0", "eof", hx([]byte(s)), "-"})
+		// server side: a chunked request with no effective limit is refused by the default 4 MiB limit (413), never allocated
+		q := "POST / HTTP/1.1\r\nHost: h\r\nTransfer-Encoding: chunked\r\n\r\n" + n + "\r\nab\r\n"
+		risky([]string{"serve", "-", "0", "eof", hx([]byte(q)), "-"})
+		c := "POST / HTTP/1.1\r\nHost: h\r\nContent-Length: 1099511627776\r\n\r\nab"
+		risky([]string{"serve", "-", "0", "eof", hx([]byte(c)), "-"})
 	}
 }
